@@ -23,6 +23,7 @@
 #include <string>
 #include <sys/mman.h>
 #include <sys/resource.h>
+#include <sys/time.h>
 #include <sys/wait.h>
 #include <unistd.h>
 #include <vector>
@@ -223,7 +224,7 @@ static void run_case(const std::vector<std::string>& lines, char* argv0)
     char a4[]    = "--log=no_loc";
     char* argv[] = {argv0, a1, a2, a3, a4, nullptr};
     int argc     = 5;
-    alarm(120);
+    alarm(3000); // safety net only (wall clock: the machine may be heavily loaded)
     sg4::Engine e(&argc, argv);
     World w;
     build(w, lines);
@@ -239,7 +240,8 @@ static void run_case(const std::vector<std::string>& lines, char* argv0)
     while (start < lines.size()) {
       pid_t worker = fork();
       if (worker == 0) {
-        alarm(20);
+        struct itimerval tv = {{0, 0}, {20, 0}}; // CPU time of the worker, not wall time
+        setitimer(ITIMER_VIRTUAL, &tv, nullptr);
         for (size_t i = start; i < lines.size(); i++) {
           if (is_query(lines[i]))
             printf("%s =>%s\n", lines[i].c_str(), answer(w, split(lines[i])).c_str());
@@ -255,7 +257,7 @@ static void run_case(const std::vector<std::string>& lines, char* argv0)
       size_t done = static_cast<size_t>(*progress);
       if (done >= lines.size())
         break;
-      printf("%s => %s\n", lines[done].c_str(), (WIFSIGNALED(st) && WTERMSIG(st) == SIGALRM) ? "timeout" : "abort");
+      printf("%s => %s\n", lines[done].c_str(), (WIFSIGNALED(st) && WTERMSIG(st) == SIGVTALRM) ? "timeout" : "abort");
       fflush(stdout);
       *progress = static_cast<int>(done + 1);
       start     = done + 1;
